@@ -862,6 +862,26 @@ impl Expr {
             let n = power as usize;
             Some(if n == 0 {
                 0.0.into()
+            } else if n >= 2
+                && let Some((term, coef)) = self.single()
+            {
+                // (kt)^n = k^n t^n, which is what multiplying n times comes to,
+                // but the number of steps must not grow with a huge power
+                let coef_pow = if n <= 1024 {
+                    // One factor at a time rounds like repeated multiplication
+                    (1..n).fold(coef, |acc, _| acc * coef)
+                } else {
+                    let (mut acc, mut square, mut left) = (ONE, coef, n);
+                    while left > 0 {
+                        if left & 1 == 1 {
+                            acc = acc * square;
+                        }
+                        square = square * square;
+                        left >>= 1;
+                    }
+                    acc
+                };
+                Expr::new_single(term.pow(power)?, coef_pow)
             } else {
                 let mut acc = self.clone();
                 for _ in 1..n {
